@@ -26,6 +26,8 @@ CONSTANTS Hash(_),   \* manifest -> version
                      \*   "firstValid"  - the first request that PASSED validateRequest (the code)
                      \*   "firstQueued" - the first request of the batch (a plausible "optimisation"; TLC must refute
                      \*                   AnnounceSound under it - non-vacuity witness of the batch model)
+                     \*   "retryFastPath" - first valid, but a re-submission of the last accepted manifest skips the
+                     \*                   version check (witness: TLC must refute ReplySound after an update)
 
 ASSUME HashInjective == \A a, b \in MSpace : Hash(a) = Hash(b) => a = b
 
@@ -55,7 +57,11 @@ Update(m) == Len(decl) \in 1..(MaxDecl - 1) /\ decl' = Append(decl, m) /\ UNCHAN
              /\ UNCHANGED svars
 \* validateRequests on a batch q with the version `exp` expected: every request is answered, the valid ones ok;
 \* one manifest is kept and announced if any request was valid
-ValidReq(m, exp) == Hash(m) = exp /\ Accept(m, D)
+\* "retryFastPath": a manifest equal to the last one that passed is waved through before the version check
+LastOk == {i \in DOMAIN replies : replies[i].ok}
+ValidReq(m, exp) == \/ Hash(m) = exp /\ Accept(m, D)
+                    \/ /\ StoreRule = "retryFastPath" /\ LastOk # {}
+                       /\ replies[CHOOSE i \in LastOk : \A j \in LastOk : j <= i].m = m
 BatchReplies(q, exp) == [i \in DOMAIN q |-> [m |-> q[i], ok |-> ValidReq(q[i], exp), exp |-> exp]]
 Kept(q, exp) ==
     IF StoreRule = "firstValid"
